@@ -290,8 +290,10 @@ pub struct Ctl {
     pub spawn_register: bool,
     /// Sleep polls: 0 = never complete, 1 = nondeterministic, 2 = always complete
     pub timer_mode: u8,
+    /// select! start branch: usize::MAX = nondeterministic (a witness draw per select), otherwise this index (mod #branches)
+    pub select_start: usize,
 }
-pub static CTL: SeqCell<Ctl> = SeqCell::new(Ctl { spawn_register: false, timer_mode: 0 });
+pub static CTL: SeqCell<Ctl> = SeqCell::new(Ctl { spawn_register: false, timer_mode: 0, select_start: usize::MAX });
 pub fn nondet_usize() -> usize {
     vwit::any_usize()
 }
@@ -389,6 +391,10 @@ macro_rules! pin {
 }
 #[doc(hidden)]
 pub fn __choose(n: usize) -> usize {
+    let fixed = CTL.lock().unwrap().select_start;
+    if fixed != usize::MAX {
+        return fixed % n;
+    }
     let c = nondet_usize();
     if c < n {
         c
